@@ -633,14 +633,13 @@ impl futures::Stream for VStream {
         use std::task::Poll;
         let this = self.get_mut();
         if this.ended {
-            return Poll::Ready(None);
+            // like `stream::unfold`: a stream that has ended must not be polled again
+            panic!("VStream polled again after it had ended");
         }
         if this.spec.always_ready {
+            // truly always ready (like `stream::repeat`): the item handler yields, so the actor task still
+            // returns to the executor once per item
             this.yielded += 1;
-            if this.yielded % 8 == 0 {
-                cx.waker().wake_by_ref();
-                return Poll::Pending;
-            }
             let uid = log::uid();
             log::log(K::StreamYield { sid: this.sid, item: uid });
             return Poll::Ready(Some(Item { uid }));
